@@ -113,7 +113,7 @@ DeviationNames ==
       "Html!NestedTableRepeated",    \* rows of a nested table are collected as rows of the outer table too
       "Epub!TableTextDropped",       \* text inside tables is neither in the text nor (nested) in the tables
       "Rtf!DeletedLeaks",            \* {\deleted ...} groups are not skipped
-      "Odg!NotesInText" }
+      "Xlsx!UnnamedHeaderPlaceholder" }   \* empty cells of the first row are rendered as "Unnamed: <col>"
 
 \* does deviation dv apply to token atom a in format fmt?  [min, max] occurrence bounds and leak permission
 InDomain(dv, fmt, a) ==
@@ -124,7 +124,6 @@ InDomain(dv, fmt, a) ==
       [] dv = "Html!NestedTableRepeated" -> fmt \in {"html", "mhtml"} /\ "tbl.nested" \in a[4]
       [] dv = "Epub!TableTextDropped"    -> fmt = "epub" /\ "tbl" \in a[4]
       [] dv = "Rtf!DeletedLeaks"         -> fmt = "rtf" /\ a[3] = "DEL"
-      [] dv = "Odg!NotesInText"          -> fmt = "odg" /\ a[3] = "SPEAKERNOTE"
       [] OTHER                           -> FALSE
 
 MinCount(fmt, a, dev) ==
@@ -135,13 +134,18 @@ MinCount(fmt, a, dev) ==
 MaxCount(fmt, a, dev) ==
     IF Req(fmt, a[3]) = "DONTCARE" THEN 99
     ELSE IF Req(fmt, a[3]) = "MUSTNOT" THEN
-        (IF \E dv \in dev : dv \in {"Odt!TrackedDeletionLeaks", "Rtf!DeletedLeaks", "Odg!NotesInText"}
+        (IF \E dv \in dev : dv \in {"Odt!TrackedDeletionLeaks", "Rtf!DeletedLeaks"}
                              /\ InDomain(dv, fmt, a) THEN 99 ELSE 0)
     ELSE IF \E dv \in dev : dv \in {"Docx!NestedTableRepeated", "Odt!NestedRepeated", "Html!NestedTableRepeated"}
                              /\ InDomain(dv, fmt, a) THEN 4
     ELSE 1
 
 SoftCounts(fmt, dev) == ~(fmt = "docx" /\ "Docx!TabBreakDropped" \in dev)
+
+\* alphanumeric words other than tokens: none is documented decoration, except as-built placeholders
+AllowedResidue(fmt, w, dev) ==
+    /\ fmt = "xlsx" /\ "Xlsx!UnnamedHeaderPlaceholder" \in dev
+    /\ w \in {"Unnamed"} \cup {ToString(n) : n \in 0..30}
 
 (* ------------------------------ the fidelity predicate ------------------------------ *)
 Count(seq, x) == Cardinality({k \in DOMAIN seq : seq[k] = x})
@@ -175,5 +179,5 @@ Fidelity(flat, fmt, obs, sep, residue, dev) ==
        /\ \A k \in DOMAIN sep :                                                   \* nothing merged
              (sep[k] = 0 /\ obs[k] \in strictIds /\ obs[k + 1] \in strictIds /\ obs[k] # obs[k + 1])
                 => seg[obs[k]] = seg[obs[k + 1]]
-       /\ residue = <<>>                                                          \* no undocumented text
+       /\ \A k \in DOMAIN residue : AllowedResidue(fmt, residue[k], dev)         \* no undocumented text
 =============================================================================
